@@ -143,6 +143,10 @@ def prop(spec, rec):
                 require(not lead.any(), "shifted_%s_leading_zero" % name, lambda: "station %s: first %d columns %r" % (sid, k, lead))
                 require(np.array_equal(rest, bb), "shifted_%s_equal_base" % name, lambda: "station %s %s shifted by %d: %r, base %r" % (sid, name, k, rest, bb))
         require({kk: ev.energy_delivered for kk, ev in hs.evs.items()} == e0, "shifted_energies", "energies differ after a time shift")
+        if m.max_recompute is None:
+            # called on events only: the shifted run is asked in exactly the shifted periods
+            want_calls = [t + k for t in sorted(base.scheduler.submitted)]
+            require(sorted(hs.scheduler.submitted) == want_calls, "shifted_invocations", lambda: "scheduler called in periods %r of the run shifted by %d, base run %r" % (sorted(hs.scheduler.submitted), k, sorted(base.scheduler.submitted)))
         shifted_ev = sorted((e[0] - k, e[1], e[2], e[3]) for e in (sc.event_key(x) for x in hs.sim.event_history))
         base_ev = sorted(sc.event_key(x) for x in base.sim.event_history)
         require(shifted_ev == base_ev, "shifted_event_history", lambda: "event history is not the base history shifted by %d: %r vs %r" % (k, shifted_ev, base_ev))
@@ -167,7 +171,25 @@ def prop(spec, rec):
                         binding = True
     if binding:
         labels.add("binding_constraint")
+    if spec["scheduler"].get("by_calls"):
+        labels.add("playback_scheduler")
+    outlived = 0
+    for t in range(W):
+        n_out = sum(1 for s in spec["sessions"] if s["arrival"] <= t < s["departure"] and s.get("est_departure") is not None and s["est_departure"] <= t)
+        outlived = max(outlived, n_out)
+    if outlived >= 2:
+        labels.add("two_sessions_past_their_estimate")
     rec.case(spec, labels, nonid >= 2 and (binding or spec["scheduler"]["kind"] in ("scripted", "uncontrolled")))
+
+
+def early_estimate(draw, a, d, used):
+    """An estimate between arrival + 1 and the real departure (the driver stays longer than
+    announced), distinct from every other session's estimate."""
+    e = a + draw(st.integers(1, max(1, d - a)))
+    while e in used:
+        e += 1
+    used.add(e)
+    return e
 
 
 @st.composite
@@ -185,9 +207,12 @@ def cases(draw):
     if sum(counts) < 2:
         counts[0] = counts[-1] = 1
     total = sum(counts)
-    ests = draw(st.lists(st.integers(30, 70), min_size=total, max_size=total, unique=True))
+    # estimated departures pairwise distinct; in half of the scenarios most of them are EARLIER
+    # than the real departure, so that several connected sessions have outlived their estimates
+    late = draw(st.booleans())
+    ests = draw(st.lists(st.integers(30, 70) if late else st.integers(1, 25), min_size=total, max_size=total, unique=True))
     first_at_zero = draw(st.booleans())
-    used_a, used_d = set(), set()
+    used_a, used_d, used_e = set(), set(), set()
     sessions = []
     idx = 0
     for s, c in zip(stations, counts):
@@ -196,7 +221,7 @@ def cases(draw):
             a = t + (draw(st.integers(0, 3)) if j else 0)
             while a in used_a:
                 a += 1
-            d = a + draw(st.integers(1, 8))
+            d = a + draw(st.integers(1, 8) if late else st.integers(3, 12))
             while d in used_d:
                 d += 1
             used_a.add(a), used_d.add(d)
@@ -206,8 +231,8 @@ def cases(draw):
                     "station": s["id"],
                     "arrival": a,
                     "departure": d,
-                    "energy": round(draw(st.sampled_from([0.3, 1.0, 4.0, 15.0])) * (1 + 0.0137 * idx), 6),
-                    "est_departure": ests[idx],
+                    "energy": round(draw(st.sampled_from([0.3, 1.0, 4.0, 15.0] if late else [4.0, 15.0, 30.0])) * (1 + 0.0137 * idx), 6),
+                    "est_departure": ests[idx] if late else early_estimate(draw, a, d, used_e),
                     "battery": draw(sc.battery_specs(noise=False)),
                 }
             )
@@ -218,6 +243,8 @@ def cases(draw):
     if kind == "scripted":
         sch = draw(sc.scripted_schedulers(stations))
         sch["probe"] = draw(st.booleans())
+        if sch.get("max_recompute") is None and draw(st.booleans()):
+            sch["by_calls"] = True  # the n-th call returns the n-th entry (playback)
         if sch["probe"]:
             # schedules that name every station (in their own order) and are judged by
             # interface.is_feasible before being submitted
@@ -226,6 +253,8 @@ def cases(draw):
         sch = {"kind": "uncontrolled", "max_recompute": draw(st.sampled_from([1, 1, 2, 3]))}
     else:
         sch = draw(sc.sorted_schedulers(estimator=False, kinds=(kind,), mr=(1, 1, 1, 2, 3)))
+        if not late and draw(st.booleans()):
+            sch["sort"] = "edf"  # the order that reads the (outlived) estimates
     last = max(s["departure"] for s in sessions)
     recomputes = draw(st.lists(st.integers(0, last + 2), max_size=2))
     nev = len(sessions) + len(recomputes)
@@ -254,7 +283,7 @@ def subchecks(tier):
             prop,
             quick=600,
             thorough=30000,
-            floors={"two_axes_permuted": 0.3, "binding_constraint": 0.1, "shifted": 0.3, "sched_greedy": 0.12, "sched_rr": 0.092},
+            floors={"two_axes_permuted": 0.3, "binding_constraint": 0.1, "shifted": 0.3, "sched_greedy": 0.12, "sched_rr": 0.092, "two_sessions_past_their_estimate": 0.1, "playback_scheduler": 0.01},
         )
     ]
 
